@@ -2013,6 +2013,52 @@ def normalise_enumerate_live(tree):
     return n
 
 
+def normalise_comp_ifexp(tree):
+    """`T = [A if C else B for v in S]` (one generator, no filter, T not mentioned inside) is the loop
+    `T = []; for v in S: if C: T.append(A) else: T.append(B)`; the comprehension's variables are kept apart from the function's own
+    names"""
+    n = 0
+    counter = [0]
+    for fn in [f for f in ast.walk(tree) if isinstance(f, (ast.FunctionDef, ast.AsyncFunctionDef))]:
+        for node in list(ast.walk(fn)):
+            for field in ("body", "orelse", "finalbody"):
+                stmts = getattr(node, field, None)
+                if not isinstance(stmts, list) or not stmts or not isinstance(stmts[0], ast.stmt):
+                    continue
+                for st in list(stmts):
+                    if isinstance(st, ast.Assign) and len(st.targets) == 1 and isinstance(st.targets[0], ast.Name):
+                        tname, val = st.targets[0].id, st.value
+                    elif isinstance(st, ast.AnnAssign) and isinstance(st.target, ast.Name) and st.value is not None:
+                        tname, val = st.target.id, st.value
+                    else:
+                        continue
+                    if not (isinstance(val, ast.ListComp) and len(val.generators) == 1 and not val.generators[0].ifs and not val.generators[0].is_async
+                            and isinstance(val.elt, ast.IfExp)):
+                        continue
+                    if any(isinstance(x, ast.Name) and x.id == tname for x in ast.walk(val)) or any(isinstance(x, (ast.Lambda, ast.NamedExpr, ast.ListComp, ast.GeneratorExp, ast.SetComp, ast.DictComp)) for x in ast.walk(val.elt)):
+                        continue
+                    g = val.generators[0]
+                    tnames = [x.id for x in ast.walk(g.target) if isinstance(x, ast.Name)]
+                    outside = {x.id for x in ast.walk(fn) if isinstance(x, ast.Name) and not any(x is y for y in ast.walk(val))} | {a.arg for a in fn.args.posonlyargs + fn.args.args + fn.args.kwonlyargs}
+                    counter[0] += 1
+                    ren = {t: f"_cv{counter[0]}_{t}" for t in tnames if t in outside}
+                    r = _Rename2(ren)
+
+                    def app(e):
+                        return ast.Expr(value=ast.Call(func=ast.Attribute(value=ast.Name(id=tname, ctx=ast.Load()), attr="append", ctx=ast.Load()), args=[r.visit(_clone(e))], keywords=[]))
+
+                    iff = ast.If(test=r.visit(_clone(val.elt.test)), body=[app(val.elt.body)], orelse=[app(val.elt.orelse)])
+                    loop = ast.For(target=r.visit(_clone(g.target)), iter=_clone(g.iter), body=[iff], orelse=[])
+                    init = ast.Assign(targets=[ast.Name(id=tname, ctx=ast.Store())], value=ast.List(elts=[], ctx=ast.Load()))
+                    for x in (init, loop):
+                        ast.copy_location(x, st)
+                        ast.fix_missing_locations(x)
+                    k = stmts.index(st)
+                    stmts[k:k + 1] = [init, loop]
+                    n += 1
+    return n
+
+
 def normalise_local_lambdas(tree, known):
     """a nested `def g(a, b): [del b]; return E` that is new with respect to the pinned inventory and whose name is only read in the
     enclosing function is the value `lambda a, b: E` (deleting an unused parameter has no effect); uses of g become that lambda."""
@@ -2118,6 +2164,7 @@ def normalise_program(trees):
         n_ += normalise_table_unroll(tree)
         n_ += normalise_try_getattr(tree)
         n_ += normalise_enumerate_live(tree)
+        n_ += normalise_comp_ifexp(tree)
         if n_:
             reshaped[path] = n_
     inv0 = inventory()
